@@ -56,21 +56,50 @@ class PacketTrack(MediaStreamTrack):
 
 
 class DecoderTap:
-    """Replacement for aiortc.rtcrtpreceiver.decoder_worker: records what the decoder would be handed."""
+    """Replacement for aiortc.rtcrtpreceiver.decoder_worker: records what the decoder would be handed.  With busy_ms each
+    thread spends that much real time on its first frames (20 ms apiece), like a decoder that is still working when
+    something else happens; the total is bounded, so joining such a thread always ends."""
 
-    def __init__(self) -> None:
+    def __init__(self, busy_ms: int = 0) -> None:
         self.frames: list = []
         self.lock = threading.Lock()
+        self.busy_ms = busy_ms
 
     def __call__(self, loop: Any, input_q: Any, output_q: Any) -> None:
+        import time
+
+        budget = self.busy_ms
         while True:
             task = input_q.get()
             if task is None:
                 asyncio.run_coroutine_threadsafe(output_q.put(None), loop)
                 break
             codec, frame = task
+            if budget > 0:
+                time.sleep(0.02)
+                budget -= 20
             with self.lock:
                 self.frames.append((codec.mimeType, frame.timestamp, bytes(frame.data)))
+
+
+class ThreadRegistry:
+    """Stands in for the `threading` module inside aiortc.rtcrtpreceiver: records every thread the receivers create together
+    with its arguments, so that a thread can be attributed to the connection that owns it."""
+
+    def __init__(self) -> None:
+        self.created: list = []
+
+    def Thread(self, *a: Any, **kw: Any) -> threading.Thread:  # noqa: N802
+        t = threading.Thread(*a, **kw)
+        self.created.append((t, kw.get("args", ())))
+        return t
+
+    def __getattr__(self, name: str) -> Any:
+        return getattr(threading, name)
+
+    def of_connection(self, pc: Any) -> list:
+        queues = [r._track._queue for r in pc.getReceivers() if getattr(r, "_track", None) is not None]
+        return [t for t, args in self.created if len(args) >= 3 and any(args[2] is q for q in queues)]
 
 
 def make_pc(bundle: str = "balanced", always_dc: bool = False) -> RTCPeerConnection:
@@ -128,7 +157,7 @@ async def wait_for(predicate: Callable[[], bool], timeout: float = 30.0, step: f
 
 
 @contextmanager
-def pc_environment(tap: Optional[DecoderTap] = None, yield_send: bool = False):
+def pc_environment(tap: Optional[DecoderTap] = None, yield_send: bool = False, threads: Optional[ThreadRegistry] = None):
     """Clock / RNG / decoder redirection for a peer-connection simulation.  With yield_send the ICE transports' datagram
     send suspends for one loop turn first, as a TURN-relayed path does while it binds or refreshes a channel."""
     import aioice.ice as ICE  # (RTCIceTransport binds Connection.send when it is constructed, inside the simulation)
@@ -141,14 +170,15 @@ def pc_environment(tap: Optional[DecoderTap] = None, yield_send: bool = False):
         await asyncio.sleep(0)
         await orig_send(self, data)
 
-    with virtual_clocks(now), patched(RX, decoder_worker=tap, random=RandomShim([0.5])), patched(TX, random=RandomShim([0.5])), \
+    with virtual_clocks(now), patched(RX, decoder_worker=tap, random=RandomShim([0.5]), threading=threads or threading), \
+            patched(TX, random=RandomShim([0.5])), \
             patched(ICE.Connection, send=yielding_send if yield_send else orig_send):
         yield tap
 
 
 def run_pc_sim(main: Callable[[vloop.VLoop], Any], *, max_iterations: int = 3_000_000, cpu_seconds: float = 120.0,
-               tap: Optional[DecoderTap] = None, yield_send: bool = False) -> Any:
-    with pc_environment(tap, yield_send):
+               tap: Optional[DecoderTap] = None, yield_send: bool = False, threads: Optional[ThreadRegistry] = None) -> Any:
+    with pc_environment(tap, yield_send, threads):
         return vloop.run_sim(main, max_iterations=max_iterations, cpu_seconds=cpu_seconds)
 
 
